@@ -201,8 +201,8 @@ func c10Mutate(r *vRand, ds *qeDataset, shortCV bool, hot c10Hot) {
 					if r.chance(1, 6) {
 						values = append(values, "surplus")
 					}
-					if shortCV && n > 0 && r.chance(1, 3) {
-						values = values[:r.intn(n)]
+					if n > 0 && r.chance(1, 3) {
+						values = values[:r.intn(n)] // fewer values than names
 					}
 					row[nameIdx], row[valIdx] = names, values
 					hot.add(t.Name, "custom_variables")
@@ -244,7 +244,7 @@ func c10ColumnNames(table string) []string {
 }
 
 // c10GenRequest generates one request text. socket: only shapes whose bytes do not depend on the clock or on map order.
-func c10GenRequest(r *vRand, ds *qeDataset, socket bool, hot c10Hot, hist func(string)) string {
+func c10GenRequest(r *vRand, ds *qeDataset, socket, shortCV bool, hot c10Hot, hist func(string)) string {
 	if r.chance(1, 9) {
 		hist("req:bad")
 
@@ -273,7 +273,13 @@ func c10GenRequest(r *vRand, ds *qeDataset, socket bool, hot c10Hot, hist func(s
 				ng = 1
 			}
 			for i := 0; i < ng; i++ {
-				cols = append(cols, vPick(r, []string{"plugin_output", "display_name", "state", "check_command", "notes", "alias", "name", "host_name", "custom_variables", "groups"}))
+				gc := vPick(r, []string{"plugin_output", "display_name", "state", "check_command", "notes", "alias", "name", "host_name", "custom_variables", "groups"})
+				if gc == "custom_variables" && !shortCV {
+					// DESIGN D23 / notes/C10.md: grouping by custom_variables crashes the pinned daemon when a row has
+					// fewer values than names; only with --shortcv
+					gc = "display_name"
+				}
+				cols = append(cols, gc)
 			}
 		}
 	case r.chance(1, 8):
@@ -402,6 +408,9 @@ func c10GenInjects(r *vRand, ds *qeDataset, big, rawUTF8 bool, hot c10Hot, hist 
 	res := []c10Inject{}
 	cands := []c10Inject{}
 	for _, bk := range ds.Backends {
+		if !bk.Avail {
+			continue
+		}
 		for _, t := range bk.Tables {
 			tn, err := NewTableName(t.Name)
 			if err != nil {
@@ -451,8 +460,9 @@ func c10GenInjects(r *vRand, ds *qeDataset, big, rawUTF8 bool, hot c10Hot, hist 
 		res = append(res, inj)
 	}
 	if big {
+		bigCol := vPick(r, []string{"notes", "plugin_output"})
 		for _, inj := range cands {
-			if inj.Col == vPick(r, []string{"notes", "plugin_output"}) && inj.Table == "hosts" {
+			if inj.Col == bigCol && inj.Table == "hosts" {
 				unit := "0123456789abcdef \"q\" \\b\\ <é> \x01\n\x7f" // 36 bytes
 				inj.Hex = hex.EncodeToString([]byte(unit))
 				inj.Count = (1<<20)/len(unit) + 1
@@ -502,7 +512,7 @@ func c10GenInput(r *vRand, idx int, tier string, shortCV, rawUTF8 bool, bigDone 
 		n = 1 + r.intn(3)
 	}
 	for i := 0; i < n; i++ {
-		in.Reqs = append(in.Reqs, c10GenRequest(r, ds, socket, hot, hist))
+		in.Reqs = append(in.Reqs, c10GenRequest(r, ds, socket, shortCV, hot, hist))
 	}
 	if big {
 		in.Reqs = append([]string{"GET hosts\nColumns: name plugin_output notes state\nResponseHeader: fixed16\nOutputFormat: wrapped_json\nKeepAlive: on\n\n"}, in.Reqs...)
@@ -1330,7 +1340,7 @@ func c10RunCase(idx int, in *c10Input, hist func(string)) (coq string, nontrivia
 }
 
 func c10Main(args []string) int {
-	// --shortcv: also generate custom variable lists with fewer values than names (DESIGN D23)
+	// --shortcv: also group Stats by custom_variables although rows may have fewer custom variable values than names (DESIGN D23)
 	// --rawutf8: also inject strings that are not valid UTF-8 into cached cells and backend error texts (notes/C10.md F1)
 	shortCV, rawUTF8 := false, false
 	rest := []string{}
@@ -1350,7 +1360,7 @@ func c10Main(args []string) int {
 	flags := verifParseStreamFlags("c10frame", rest)
 	meta := newVMeta("frame", "generated datasets (1-3 backends, qeGenDataset) with adversarial strings (quotes, backslashes, every control byte, 0x7f, U+2028/9, <>&, "+
 		"non-ASCII, empty, JSON look-alikes) in string / string list / custom variable cells (duplicate names, surplus values"+
-		map[bool]string{true: ", fewer values than names", false: ""}[shortCV]+")"+map[bool]string{true: ", raw injections of invalid UTF-8 into cached cells and error texts", false: ""}[rawUTF8]+", one 1 MB string injected into a cached cell, backends down with adversarial error texts, strings in float columns (NaN, Inf); "+
+		", fewer values than names)"+map[bool]string{true: " incl. Stats grouped by custom_variables", false: ""}[shortCV]+map[bool]string{true: ", raw injections of invalid UTF-8 into cached cells and error texts", false: ""}[rawUTF8]+", one 1 MB string injected into a cached cell, backends down with adversarial error texts, strings in float columns (NaN, Inf); "+
 		"1-6 requests per case over all cached tables + sites/backends/columns/tables: column lists incl. unknown/duplicate/reference/virtual columns or none, ColumnHeaders on/off, "+
 		"json/wrapped_json/python, Stats with and without Columns, empty results, Limit/Offset, Backends incl. unknown ids, fixed16 on/off, unparsable requests, empty lines; "+
 		"each request through Response.send into a buffer, 40% of the cases also as a keep-alive sequence over a real unix socket listener. "+
